@@ -27,7 +27,9 @@
   (LIST LSUB STATUS FETCH STORE COPY MOVE, other search keys, CREATE parameters, APPEND date) makes
   the model stop with the event `opaque`: a faithful mirror of those handlers would be
   disproportionate for a framing model; the oracle (Spec/Framing.lean) still judges them.
-  The backend is the recording stub: every session call succeeds.
+  The backend is the recording stub: every session call succeeds, except that `Cfg.appendFails`
+  makes Session.Append fail before it reads the message (the one backend failure that matters
+  for framing: the handler has to drain the literal itself).
 
   `Fixes` selects the repaired behaviour (all true = the current tree) or the behaviour before a
   given repair (`Legacy`), which is kept for the counterexample theorems.
@@ -115,6 +117,7 @@ structure Cfg where
   plus : Bool       -- the server advertises LITERAL+
   preauth : Bool
   fx : Fixes := Fixes.all
+  appendFails : Bool := false   -- the backend's Append returns an error without reading the message
 deriving DecidableEq, Repr
 
 structure S where
@@ -713,10 +716,11 @@ def appendLiteral (cfg : Cfg) (m : Bytes) (s : S) : Option Err × S :=
           let (_, s) := s.crlfP
           (some .bad, s)
         else
-          let s := s.emit (call .append [m, v])
+          -- session.Append, then the handler drains what the backend left of the literal
+          let s := s.emit (call .append [m, if cfg.appendFails then [] else v])
           match s.expectCRLF with
           | (false, s) => if cfg.fx.append then (s.err, s) else (none, { s with mute := true })
-          | (true, s) => (none, s)
+          | (true, s) => if cfg.appendFails then (some .no, s) else (none, s)
 
 /-- handleAppend (append.go) -/
 def hAppend (cfg : Cfg) (s : S) : Option Err × S :=
